@@ -283,23 +283,44 @@ def gen_rhist(rng, case):
     return ops
 
 def gen_pre(rng, case):
-    """what happens to the stream, through it and through proxies of it, before the reaction is applied through one
-    of the handles: property reads (memoised), changes of T / flows / phase and changes back"""
+    """what happens to the stream, through it, through proxies of it and through COPIES of it (and of those), before the
+    reaction is applied through one of the handles: property reads (memoised), changes of T / flows / phase and changes back.
+    ['copy', handle, how]: how = 'copy' (stream.copy()), 'thermo' (stream.copy(thermo=its own package)), 'copy.copy'"""
     Ta = case['T']; Tb = rng.choice([t for t in TS if t != Ta])
     alt = [float(rng.choice(SMALL + BIG)) for _ in range(N)]
-    if rng.random() < 0.5:
+    def how(): return rng.choice(['copy', 'copy', 'thermo', 'copy.copy'])
+    u = rng.random()
+    if u < 0.3:
         # state A read through two handles, state B read through one, back to exactly A, use the other
         change, back = rng.choice([(['setT', 0, Tb], ['setT', 1, Ta]), (['setflows', 1, alt], ['setflows', 0, list(case['flows'])]),
                                    (['setphase', 0, 'g' if case['sphase'] != 'g' else 'l'], ['setphase', 0, case['sphase']])])
         ops = [['proxy', 0], ['readH', 0], ['readH', 1], change, [rng.choice(['readH', 'readH', 'readC']), rng.randrange(2)], back]
         return ops, rng.randrange(2)
+    if u < 0.6:
+        # a stream whose properties were read is copied; the copy moves to another state and is read; then the original
+        # is read again and / or copied again, and the reaction goes through any of them
+        ops = [['proxy', 0]] if rng.random() < 0.3 else []
+        n = 1 + len(ops)                       # number of handles so far
+        src = rng.randrange(n)
+        ops.append([rng.choice(['readH', 'readH', 'readH', 'readC']), rng.randrange(n)])
+        ops.append(['copy', src, how()]); c1 = n; n += 1
+        for _ in range(rng.randint(1, 2)):
+            ops.append(rng.choice([['setT', c1, Tb], ['setT', c1, Tb], ['setflows', c1, alt],
+                                   ['setphase', c1, 'g' if case['sphase'] != 'g' else 'l']]))
+        ops.append([rng.choice(['readH', 'readH', 'readH', 'readC']), c1])
+        if rng.random() < 0.5: ops.append(['readH', rng.randrange(c1)])
+        if rng.random() < 0.6:
+            ops.append(['copy', rng.choice([src, src, c1]), how()]); n += 1
+            if rng.random() < 0.3: ops.append(['readH', n - 1])
+        return ops, rng.randrange(n)
     ops = [['proxy', 0]] if rng.random() < 0.7 else []
-    for _ in range(rng.randint(1, 6)):
-        o = rng.choice(['proxy', 'readH', 'readH', 'readC', 'setT', 'setT', 'setflows', 'setphase'])
+    for _ in range(rng.randint(1, 7)):
+        o = rng.choice(['proxy', 'copy', 'copy', 'readH', 'readH', 'readH', 'readC', 'setT', 'setT', 'setflows', 'setphase'])
         h = rng.randrange(8)
         if o == 'setT': ops.append([o, h, rng.choice([Ta, Ta, Tb])])
         elif o == 'setflows': ops.append([o, h, rng.choice([alt, list(case['flows'])])])
         elif o == 'setphase': ops.append([o, h, rng.choice(['l', 'g', 's', case['sphase']])])
+        elif o == 'copy': ops.append([o, h, how()])
         else: ops.append([o, h])
     return ops, rng.randrange(8)
 
@@ -522,27 +543,37 @@ def state_of(s):
     return {'mol': [float(x) for x in np.asarray(s.imol.data.to_array(), float).reshape(-1)], 'T': float(s.T), 'phase': s.phase}
 
 def run_stream(case, obj):
-    """single-phase Stream: the pre-history through the handles, then the operation through one of them.
-    Returns the reads, the state before the operation, the exception, the state after, and Hnet of both states
-    evaluated on FRESH streams (no memo involved)."""
+    """single-phase Stream: the pre-history through the handles (the stream, its proxies, copies of any of them and
+    their proxies), then the operation through one of them, then H read back through every stream.
+    Returns the reads, the state before the operation, the exception, the states after, and Hnet of both states
+    evaluated on FRESH streams (no memo involved).  Streams are numbered in order of creation (0 = the original,
+    then each copy); a proxy is another handle of the same stream."""
+    import copy as _copy
     s = make_stream(case)
-    handles = [s]; reads = []; pre = []; true_reads = []
+    handles = [s]; hg = [0]; groups = [s]
+    reads = []; pre = []; true_reads = []
+    def true_H(g):
+        st_ = state_of(groups[g]); return float(fresh_stream(case, st_['mol'], st_['T'], st_['phase']).H)
     for op in case.get('pre', []):
-        h = handles[op[1] % len(handles)]
+        k = op[1] % len(handles)
+        h = handles[k]; g = hg[k]
         name = op[0]
-        if name == 'proxy': handles.append(h.proxy()); pre.append(['proxy'])
+        if name == 'proxy': handles.append(h.proxy()); hg.append(g); pre.append(['proxy'])
+        elif name == 'copy':
+            c = h.copy() if op[2] == 'copy' else (h.copy(thermo=h.thermo) if op[2] == 'thermo' else _copy.copy(h))
+            handles.append(c); groups.append(c); hg.append(len(groups) - 1); pre.append(['copy', g])
         elif name == 'readH':
-            reads.append(float(h.H)); pre.append(['readH'])
-            st_ = state_of(s); true_reads.append(float(fresh_stream(case, st_['mol'], st_['T'], st_['phase']).H))
-        elif name == 'readC': h.C; pre.append(['readC'])
-        elif name == 'setT': h.T = op[2]; pre.append(['setT', op[2]])
-        elif name == 'setflows': h.imol.data[:] = np.array(to_pkg(case, op[2]), float); pre.append(['setflows', to_pkg(case, op[2])])
-        elif name == 'setphase': h.phase = op[2]; pre.append(['setphase', op[2]])
-    before = state_of(s)
+            reads.append(float(h.H)); pre.append(['readH', g]); true_reads.append(true_H(g))
+        elif name == 'readC': h.C; pre.append(['readC', g])
+        elif name == 'setT': h.T = op[2]; pre.append(['setT', op[2], g])
+        elif name == 'setflows': h.imol.data[:] = np.array(to_pkg(case, op[2]), float); pre.append(['setflows', to_pkg(case, op[2]), g])
+        elif name == 'setphase': h.phase = op[2]; pre.append(['setphase', op[2], g])
+    kt = case.get('via', 0) % len(handles)
+    target = handles[kt]; tg = hg[kt]; ts = groups[tg]
+    before = state_of(ts)
     f0 = fresh_stream(case, before['mol'], before['T'], before['phase'])
-    r = {'reads': reads, 'true_reads': true_reads, 'pre': pre, 'before': before, 'err': None,
+    r = {'reads': reads, 'true_reads': true_reads, 'pre': pre, 'before': before, 'err': None, 'via_stream': tg,
          'Hnet0': float(f0.Hnet), 'H0': float(f0.H)}
-    target = handles[case.get('via', 0) % len(handles)]
     try:
         with failing_solver(s, case.get('solve_fail', [])):
             if case['op'] == 'adiabatic':
@@ -551,13 +582,18 @@ def run_stream(case, obj):
                 obj(target)
     except Exception as ex:
         r['err'] = errname(ex); r['err_cls'] = type(ex).__name__
-    if r['err'] and s.imol.chemicals is not s.chemicals:
+    broken = bool(r['err']) and ts.imol.chemicals is not ts.chemicals
+    if broken:
         # an exception on another package leaves the flows indexed by the reaction's chemicals: only the class is compared
-        r['after'] = {'mol': [], 'T': float(s.T), 'phase': s.phase}; r['Hnet'] = 0.0
+        r['after'] = {'mol': [], 'T': float(ts.T), 'phase': ts.phase}; r['Hnet'] = 0.0
     else:
-        r['after'] = state_of(s)
+        r['after'] = state_of(ts)
         f1 = fresh_stream(case, r['after']['mol'], r['after']['T'], r['after']['phase'])
         r['Hnet'] = float(f1.Hnet); r['H1'] = float(f1.H)
+    # every stream after the operation (what must not have changed included), and H read back through each of them
+    r['afters'] = [r['after'] if g == tg else state_of(x) for g, x in enumerate(groups)]
+    r['post'] = [0.0 if (broken and g == tg) else float(x.H) for g, x in enumerate(groups)]
+    r['post_true'] = [0.0 if (broken and g == tg) else true_H(g) for g in range(len(groups))]
     return r
 
 def canon_dH(x):
@@ -604,7 +640,10 @@ def run_impl_(case):
         r = run_stream(case, obj)
         out.update(err=r['err'], err_cls=r.get('err_cls'), reads=[fr_json(frac(x)) for x in r['reads']], pre=r['pre'],
                    Hnet0=fr_json(frac(r['Hnet0'])), mol=[fr_json(frac(x)) for x in r['after']['mol']],
-                   T=fr_json(frac(r['after']['T'])), phase=r['after']['phase'], Hnet=fr_json(frac(r['Hnet'])))
+                   T=fr_json(frac(r['after']['T'])), phase=r['after']['phase'], Hnet=fr_json(frac(r['Hnet'])),
+                   via_stream=r['via_stream'],
+                   afters=[[[fr_json(frac(x)) for x in a['mol']], fr_json(frac(a['T'])), a['phase']] for a in r['afters']],
+                   post=[fr_json(frac(x)) for x in r['post']])
         return out
     s = make_stream(case)
     out['Hnet0'] = fr_json(frac(s.Hnet))
@@ -782,12 +821,25 @@ def coq_case(case, out):
             callf = f'(fun o => call_other {qlist(MW)} o {cnat(N)} {fwd} {bwd})'
         else:
             callf = f'(fun o => call_stream {qlist(MW)} o)'
+        heap = any(o[0] == 'copy' for o in out['pre'])
+        if heap:
+            # copies were made: the streams form a heap, every operation names the stream it went through
+            pre = clist([f'(HCopyS {cnat(o[1])})' if o[0] == 'copy' else f'(HOn {cnat(o[-1])} {csop(o)})'
+                         for o in out['pre'] if o[0] != 'proxy'])
         th = (f'(thermal_cached_eqb {qlist(to_pkg(case, CN))} {hf_term(case, case.get("pkg", "A"))} '
               f'{clist([PH[p] for p in case.get("solve_fail", [])], cnat)} {cobj_after(case)} {callf} '
               f'{cbool(case["op"] == "adiabatic")} {cbool(not case["not_stream"])} (mkP {qlist(to_pkg(case, case["flows"]))} '
               f'{q(case["T"])} {cnat(PH[case.get("sphase", "l")])}) {pre} {qlist([F(x) for x in out["reads"]])} {q(case["Q"])} '
               f'{cerr(out["err"])} {qlist([F(x) for x in out["mol"]])} {q(F(out["T"]))} {cnat(PH[out["phase"]])} '
               f'{q(F(out["Hnet0"]))} {q(F(out["Hnet"]))})')
+        if heap:
+            afters = clist([f'({qlist([F(x) for x in m])}, {q(F(T_))}, {cnat(PH[p_])})' for m, T_, p_ in out['afters']])
+            th = (f'(thermal_heap_eqb {qlist(to_pkg(case, CN))} {hf_term(case, case.get("pkg", "A"))} '
+                  f'{clist([PH[p] for p in case.get("solve_fail", [])], cnat)} {cobj_after(case)} {callf} '
+                  f'{cbool(case["op"] == "adiabatic")} {cbool(not case["not_stream"])} (mkP {qlist(to_pkg(case, case["flows"]))} '
+                  f'{q(case["T"])} {cnat(PH[case.get("sphase", "l")])}) {pre} {qlist([F(x) for x in out["reads"]])} '
+                  f'{cnat(out["via_stream"])} {q(case["Q"])} {cerr(out["err"])} {afters} '
+                  f'{q(F(out["Hnet0"]))} {q(F(out["Hnet"]))} {qlist([F(x) for x in out["post"]])})')
         return f'({t} && {th})'
     th = (f'(thermal_eqb {qlist(CN * P)} (tile {cnat(P)} {hf_term(case)}) {qlist(MW * P)} {cobj_after(case)} {cbool(case["op"] == "adiabatic")} '
           f'{cbool(not case["not_stream"])} (mkS {qlist(case["flows"])} {q(case["T"])}) {q(case["Q"])} {q(F(out["Hnet0"]))} '
@@ -820,6 +872,7 @@ def classify(case, out):
     for o in case.get('xhist', []): ks.append('xhist:' + o[0])
     for o in case.get('pkg_hist', []): ks.append('package:' + o[0] + (o[1] if o[0] == 'refresh' else ''))
     for o in case.get('pre', []): ks.append('pre:' + o[0])
+    if any(o[0] == 'copy' for o in case.get('pre', [])): ks.append('pre:heap-of-copies')
     for o, ok in zip(out.get('hist_ops', []), out.get('hist_oks', [])): ks.append('rhist:' + o[0] + (':ok' if ok else ':raise'))
     if case.get('pkg') == 'B': ks.append('stream-on-other-package')
     if case.get('solve_fail'): ks.append('solver-raises-in:' + ''.join(case['solve_fail']) + ':stream-' + case.get('sphase', 'l') + '->' + str(out.get('phase')))
@@ -928,6 +981,11 @@ def oracle_(case):
         for got_, true_ in zip(r['reads'], r['true_reads']):
             if not approx(got_, true_, abs(true_)):
                 return f'memo: Stream.H read through a handle returned {got_}, the state it was read in has H = {true_}'
+        for g_, (got_, true_) in enumerate(zip(r['post'], r['post_true'])):
+            if not approx(got_, true_, abs(true_)):
+                return (f'memo: after the {case["op"]} call through stream {r["via_stream"]}, Stream.H of stream {g_} (0 = original, '
+                        f'others = copies in order of creation) reads {got_}, the state that stream is in has H = {true_}; '
+                        f'history before the call: {[o[0] for o in r["pre"]]}')
         before = r['before']; T_op = before['T']
         mol0 = np.array(from_pkg(case, before['mol']), float)
         hfo = np.array(hf_oracle(case, case.get('pkg', 'A')), float)      # per chemical, reaction order
